@@ -74,7 +74,12 @@ CP_FIELDS = [("block_cipher_mode", 10, "BlockCipherMode"), ("padding_method", 10
              ("counter_length", 14, None), ("initial_counter_value", 14, None)]
 
 
+KEEP_LOGGING = [False]       # set by a caller that runs cases under a logging configuration of its own
+
+
 def quiet():
+    if KEEP_LOGGING[0]:
+        return
     logging.disable(logging.CRITICAL)
 
 
